@@ -53,12 +53,15 @@ fn render_comp(c: &Comp) -> String {
                 s.push('+');
             }
         } else {
+            // "x+1/2", "x +1/2", "x+ 1/2", "x + 1/2": blanks on either side of a binary operator
             let (before, after) = c.sp[i.min(c.sp.len() - 1)];
-            let _ = after; // a space between a sign and its term is not generated
             if before {
                 s.push(' ');
             }
             s.push(if neg { '-' } else { '+' });
+            if after {
+                s.push(' ');
+            }
         }
         s.push_str(&body);
     }
@@ -170,7 +173,7 @@ pub fn decode_comp(b: &[u8]) -> Comp {
         code /= pool.len().max(1);
         terms.push(pool.remove(k));
     }
-    Comp { terms, lead_plus: get(5) & 1 == 1, sp: vec![(get(5) & 2 == 2, false), (get(5) & 4 == 4, false), (get(5) & 8 == 8, false)] }
+    Comp { terms, lead_plus: get(5) & 1 == 1, sp: vec![(get(5) & 2 == 2, get(5) & 16 == 16), (get(5) & 4 == 4, get(5) & 32 == 32), (get(5) & 8 == 8, get(5) & 64 == 64)] }
 }
 
 pub fn decode_case(b: &[u8]) -> OpCase {
